@@ -274,7 +274,8 @@ class Heap:
             if tname in ITER_LIKE:
                 rec["text"] = "Iterator of type: %s" % type(o)
             elif type(o) is dict or tname in LIST_LIKE:
-                rec["text"] = "Size: %d" % len(o)
+                rec["text"] = "Size: %d" % len(o)      # for the direct oracles; the model computes it itself (o_sized)
+                rec["sized"] = True
             else:
                 try:
                     rec["text"] = str(o)
